@@ -19,6 +19,14 @@ CHECKS = {
          "Designated replies, one ReadyForQuery per Sync, exactly one ErrorResponse then silence until Sync, unknown names as errors; judged per message and per quiescence point.", "3 C06"),
  "C07": ("exploration", E1 + " + " + E2, "deterministic simulation: seeded name-reuse histories with unique definitions, per-connection namespace model; seeded interleavings of connections sharing names",
          "Each Execute/Describe must be attributable to the definition current at Bind time; Close makes names unresolvable; concurrent connections using the same names must each equal their own model run.", "3 C07"),
+ "C08": ("exploration", E1, "deterministic simulation: seeded Bind shapes x traffic between Bind and Execute x segmentation, reference model of the format-code rule, byte equality and independent decoders on what the statement function observes",
+         "Parameters are zero-copy windows into the connection's read buffer created at Bind and consumed at a later Execute, so the guarantee depends on the message history in between; every observed count/value/format/Scan result and the portal's RowDescription/DataRow formats are compared with the model.", "3 C08"),
+ "C09": ("exploration", E1, "deterministic simulation: seeded typed rows in many Go representations and NULL spellings, both formats, varying encode history per connection; every DataRow decoded by independent codecs",
+         "Each accepted row must arrive as one DataRow whose fields decode (independent text and binary decoders) to the written values, NULL as length -1; the encode path memoises plans per connection, so the order in which Go types were encoded earlier is part of the explored space.", "3 C09"),
+ "C12": ("exploration", E1 + " + " + E2 + " (-race shard)", "deterministic simulation: seeded startup packets and configurations, multiset model of the startup reply, context read-back in callbacks, map immutability; concurrent users under seeded schedules with the HB-transparent race oracle",
+         "Client parameters seen in callbacks equal the packet's pairs, the startup reply announces exactly the configured set once, the user's map is unchanged and never raced on, cancel packets get no reply and no callback.", "3 C12"),
+ "C19": ("exploration", E1, "deterministic simulation: seeded middleware chains, failure positions, terminate hooks and command histories; event-order monitor plus context inspection inside every callback",
+         "Order and once-only execution of middlewares, context propagation into every parser/statement call, cancellation of per-command contexts, failing middleware ends the connection, Terminate hook exactly once.", "3 C19"),
  "C13": ("exploration", E1, "deterministic simulation: seeded COPY-in sub-protocol histories and handler read plans, COPY model + exactly-once abort cycle count",
          "Payloads in order and byte-exact, Flush/Sync ignored, CopyDone = EOF, CopyFail/foreign message = error, exactly one ErrorResponse and ReadyForQuery for an aborted cycle, stray COPY messages ignored.", "3 C13"),
 }
